@@ -31,7 +31,12 @@ pub fn is_valid_stream<T: Parse>(input: TokenStream) -> bool {
 /// Returns `true` if expr is {...}.
 ///
 pub fn is_block_expr(expr: &Expr) -> bool {
-    matches!(expr, Expr::Block(_))
+    match expr {
+        Expr::Block(_) => true,
+        // A block which arrives as a `macro_rules!` fragment (`$e:expr`) is wrapped into a None-delimited group.
+        Expr::Group(group) => is_block_expr(&group.expr),
+        _ => false,
+    }
 }
 
 ///
